@@ -35,7 +35,7 @@ RULE = ("case = (program, slice schedule): program from the dsl / ring / buffer 
         "slice vector and/or PRNG slices in [1,max], max from 1 to 500; non-trivial iff the run entered the scheduler >= 20 times "
         "and >= 2 threads contend for one mutex or condition variable; distinct by (program digest, schedule)")
 ASSUMPTIONS = ["timeouts that must not expire are 1000 s; timeouts that must expire are 5-20 ms and only a lower bound on the elapsed time is asserted",
-               "a run is a lost wake-up only if it hits the 12 s wall limit (or, late wake-up, needs > 2.5 s) having used < 25% of that as CPU time, and does so again in re-runs (programs need < 0.1 s)",
+               "a run is a lost wake-up only if it hits the 12 s wall limit (or, late wake-up, needs > 6 s) having used < 25% of that as CPU time, and does so again in re-runs (programs need < 0.1 s)",
                "new threads start with default parameter values (chibi resets the parameterization of a new thread): only per-thread consistency is asserted"]
 
 _D = {}
@@ -409,7 +409,7 @@ def get_judge(case):
 
 
 WALL = 12
-LATE = 2.5
+LATE = 6.0
 
 
 def run_case(case, variant="plain"):
